@@ -33,6 +33,8 @@ void harness(void)
     __CPROVER_assert(0, "canary");
 }
 '''
+    # the queue's own contract (C16) is what the transfer obligations rest on: an object handed to write() is queued exactly once, read() removes exactly one
+    js += [core.borrow(j, 'C16', 'C13') for j in c16.jobs() if not j.name.endswith('dtor')]
     js.append(core.Job('C13_File_dtor', src, route='harness', flags=file_common.FLAGS, functions=['File::~File'], canary_ids=['harness.assertion.2'], timeout=120))
     return js
 
